@@ -150,7 +150,7 @@ theorem C09_origin_form_unchanged (f : Format) (e : Entry) (ho : originForm e.ur
         intro ha
         simp only [List.all_cons, Bool.and_eq_true] at ha
         have := ih ha.2
-        simp [List.dropWhile_cons, ha.1, this]
+        simp [ha.1, this]
     obtain ⟨t1, t2⟩ := htw e.host hh
     simp only [splitURLv, hpre, splitAuth, t1, t2]
   cases f <;> simp [wireURI, urlHost, urlOf, viaOf, hu, plain, json]
@@ -293,6 +293,21 @@ theorem C09_target_all_guns (k : GunKind) (ssl dnsCache isResolved : Bool) (l : 
   simp only [shoot, factory, preResolve]
   cases dnsCache <;> cases isResolved <;> cases l <;> simp
 
+/-- **connect plugin: the tunnel.** The TCP connection of every tunnel and the authority of its `CONNECT` request are the
+same address: the configured target, or the address the reachability lookup found for it (an address, if found, is not
+empty). -/
+theorem C09_connect_tunnel (ssl dnsCache isResolved : Bool) (l : Lookup) (target : Str) (r : Req)
+    (hl : l ≠ .found []) :
+    let g := factory .connect ssl dnsCache isResolved l target
+    let t := connectTunnel g (shoot g r)
+    t.tcp = t.authority ∧ (t.tcp = target ∨ l = .found t.tcp) := by
+  simp only [connectTunnel, shoot, factory, preResolve]
+  cases dnsCache <;> cases isResolved <;> cases l with
+  | fails => simp
+  | found a =>
+    have ha : a ≠ [] := fun e => hl (by rw [e])
+    by_cases ht : target = [] <;> simp [ha, ht]
+
 /-- the http2 plugin refuses to be built without ssl, so whatever an http2 gun sends goes over TLS -/
 theorem C09_http2_needs_ssl (ssl : Bool) (h : constructible .http2 ssl = true) : ssl = true := by
   simpa [constructible] using h
@@ -390,6 +405,148 @@ theorem C09_connections_of_shots (inst : Nat) (shots : List (Nat × Shot)) (arri
 theorem C09_one_connection_per_instance (fs : List Flight) (hc : ∀ f ∈ fs, f.close = false) :
     gunConns true false fs ≤ 1 := (gunConns_keepalive_le_one false fs hc).1
 
+/-! ### connections and time: the transport's timeouts (round 2) -/
+
+/-- **Refinement.** With the gun's transport `t`, as long as no instance pauses as long as the idle timeout and no answer
+takes as long as the response-header timeout, the timed pool is the untimed one with keep-alive = `keeps t`: all the
+theorems above speak about it. -/
+theorem C09_connections_timed_refines (t : Transport) (inst : Nat) (fs : List TFlight)
+    (hq : ∀ f ∈ fs, idleExpired t f.pause = false ∧ responseLost t f.delay = false) :
+    tconnRun t inst fs = connRun (keeps t) inst (fs.map TFlight.untimed) := by
+  simp only [tconnRun, connRun, tconnRunFrom_quiet t _ fs hq]
+
+/-- **Keep-alive over time.** A transport that keeps connections, `inst` instances in any interleaving, no request asking
+to close, every pause of an instance shorter than the idle timeout, every answer in time: at most `inst` connections. -/
+theorem C09_connections_timed_keepalive (t : Transport) (inst : Nat) (fs : List TFlight) (hk : keeps t = true)
+    (hg : ∀ f ∈ fs, f.gun < inst) (hc : ∀ f ∈ fs, f.close = false)
+    (hq : ∀ f ∈ fs, idleExpired t f.pause = false ∧ responseLost t f.delay = false) :
+    tconnRun t inst fs ≤ inst := by
+  rw [C09_connections_timed_refines t inst fs hq, hk]
+  apply C09_connections_keepalive
+  · intro f hf
+    obtain ⟨g, hg', rfl⟩ := List.mem_map.mp hf
+    exact hg g hg'
+  · intro f hf
+    obtain ⟨g, hg', rfl⟩ := List.mem_map.mp hf
+    exact hc g hg'
+
+/-- in general every connection beyond one per instance is paid for by a request that asked to close, a pause that
+outlasted the idle timeout, or an answer lost to the response-header timeout -/
+theorem C09_connections_timed_bound (t : Transport) (inst : Nat) (fs : List TFlight) (hk : keeps t = true)
+    (hg : ∀ f ∈ fs, f.gun < inst) :
+    tconnRun t inst fs ≤ inst + countClosing (fs.map TFlight.untimed) + countExpired t fs + countLost t fs := by
+  have h := tconnRunFrom_bound t (List.replicate inst false, 0) fs (by simpa using hg) hk
+  have hlen := tconnRunFrom_length t (List.replicate inst false, 0) fs
+  have hle := count_le_length (tconnRunFrom t (List.replicate inst false, 0) fs).1
+  simp only [tconnRun]
+  simp only [count_true_replicate_false, List.length_replicate] at h hlen
+  omega
+
+/-- **Which options have a say.** Two configurations that agree on `disable-keep-alives`, `max-idle-conns`,
+`max-idle-conns-per-host`, `idle-conn-timeout` and `response-header-timeout` give the same number of connections for
+every run: `tls-handshake-timeout`, `expect-continue-timeout` and `disable-compression` do not decide about reuse
+(NewTransport hands every option to the transport field of its own name: `Bridge.HttpWire.newTransport_eq`). -/
+theorem C09_reuse_options_only (c c' : TransportCfg) (inst : Nat) (fs : List TFlight)
+    (h1 : c.disableKeepAlives = c'.disableKeepAlives) (h2 : c.maxIdleConns = c'.maxIdleConns)
+    (h3 : c.maxIdleConnsPerHost = c'.maxIdleConnsPerHost) (h4 : c.idleConnTimeout = c'.idleConnTimeout)
+    (h5 : c.responseHeaderTimeout = c'.responseHeaderTimeout) :
+    tconnRun (newTransport c) inst fs = tconnRun (newTransport c') inst fs := by
+  have hs : tconnStep (newTransport c) = tconnStep (newTransport c') := by
+    funext st f
+    simp only [tconnStep, keeps, idleExpired, responseLost, newTransport, h1, h2, h3, h4, h5]
+    rfl
+  simp only [tconnRun, tconnRunFrom, hs]
+
+/-- pandora's default transport options with the three options that have no say about reuse set to anything -/
+def defaultsWith (hs ect : Int) (dc : Bool) : TransportCfg :=
+  { defaultTransportCfg with tlsHandshakeTimeout := hs, expectContinueTimeout := ect, disableCompression := dc }
+
+/-- **The defaults keep the property's promise, whatever the handshake timeout.** With pandora's default keep-alive
+options (`DefaultTransportConfig`: keep-alives on, no idle limits, idle connections live 90 s, no response-header
+timeout) and ANY `tls-handshake-timeout` / `expect-continue-timeout` / `disable-compression`: instances that pause less
+than 90 s between their requests, none of which asks to close, share one connection each — for every interleaving,
+however slowly the target answers. -/
+theorem C09_default_transport_reuses (hs ect : Int) (dc : Bool) (inst : Nat) (fs : List TFlight)
+    (hg : ∀ f ∈ fs, f.gun < inst) (hc : ∀ f ∈ fs, f.close = false) (hp : ∀ f ∈ fs, (f.pause : Int) < 90 * sec) :
+    tconnRun (newTransport (defaultsWith hs ect dc)) inst fs ≤ inst := by
+  apply C09_connections_timed_keepalive _ inst fs (by simp [keeps, newTransport, defaultsWith, defaultTransportCfg]) hg hc
+  intro f hf
+  have := hp f hf
+  refine ⟨?_, by simp [responseLost, newTransport, defaultsWith, defaultTransportCfg]⟩
+  simp only [idleExpired, newTransport, defaultsWith, defaultTransportCfg, sec] at this ⊢
+  have h2 : ¬ ((90000000000 : Int) ≤ (f.pause : Int)) := by omega
+  simp [h2]
+
+/-- the same through the option decoding: a gun section that sets `tls-handshake-timeout` only -/
+theorem C09_handshake_option_reuses (v : Int) (inst : Nat) (fs : List TFlight)
+    (hg : ∀ f ∈ fs, f.gun < inst) (hc : ∀ f ∈ fs, f.close = false) (hp : ∀ f ∈ fs, (f.pause : Int) < 90 * sec) :
+    tconnRun (transportOf [("tls-handshake-timeout", v)]) inst fs ≤ inst := by
+  have : transportOf [("tls-handshake-timeout", v)] = newTransport (defaultsWith v (1 * sec) true) := by
+    simp [transportOf, setTransportOpt, transportTags, defaultTransportCfg, defaultsWith]
+  rw [this]
+  exact C09_default_transport_reuses v (1 * sec) true inst fs hg hc hp
+
+/-- an idle timeout below the pauses is the operator's own demand: a lone instance that pauses at least that long before
+every request dials for each of them -/
+theorem C09_idle_timeout_expires (t : Transport) (fs : List TFlight) (hg : ∀ f ∈ fs, f.gun = 0)
+    (ha : ∀ f ∈ fs, f.arrived = true) (he : ∀ f ∈ fs, idleExpired t f.pause = true) :
+    tconnRun t 1 fs = fs.length := by
+  have key : ∀ (st : List Bool × Nat), st.1.length = 1 → (tconnRunFrom t st fs).2 = st.2 + fs.length := by
+    induction fs with
+    | nil => intro st _; rfl
+    | cons f fs ih =>
+      intro st hl
+      rw [tconnRunFrom_cons, ih (fun f' h' => hg f' (List.mem_cons_of_mem _ h'))
+        (fun f' h' => ha f' (List.mem_cons_of_mem _ h')) (fun f' h' => he f' (List.mem_cons_of_mem _ h'))
+        _ (by rw [tconnStep_length]; exact hl)]
+      simp only [tconnStep, ha f List.mem_cons_self, he f List.mem_cons_self, Bool.not_true, Bool.false_eq_true,
+        if_false, Bool.and_false, List.length_cons]
+      omega
+  simpa [tconnRun] using key (List.replicate 1 false, 0) (by simp)
+
+/-! ### absolute-form request targets -/
+
+/-- **An absolute URI `http(s)://authority/path` reaches the wire as `/path` with Host `authority`** in the uri,
+uripost and raw formats (the authority being a plain one: no `/`, `?`, `#`; the path starting with `/`): the
+request-URI on the wire is the path-and-query of the entry byte for byte, and the connection still goes to the gun's
+target (`C09_target`). -/
+theorem C09_absolute_form (f : Format) (e : Entry) (https : Bool) (auth path : Str)
+    (hf : f = .uri ∨ f = .uripost ∨ f = .raw)
+    (hu : e.uri = (if https then httpsPfx else httpPfx) ++ auth ++ 47 :: path)
+    (ha : auth.all (fun c => !isAuthEnd c) = true) :
+    wireURI f e = 47 :: path ∧ urlHost f e = auth := by
+  have hs : ∀ (p s : Str), stripPrefix? p (p ++ s) = some s := by
+    intro p s; induction p with
+    | nil => cases s <;> rfl
+    | cons a t ih => simp [stripPrefix?, ih]
+  have htw : ∀ (h : Str), h.all (fun c => !isAuthEnd c) = true →
+      (h ++ 47 :: path).takeWhile (fun c => !isAuthEnd c) = h ∧
+      (h ++ 47 :: path).dropWhile (fun c => !isAuthEnd c) = 47 :: path := by
+    intro h
+    induction h with
+    | nil => intro _; simp [isAuthEnd]
+    | cons a t ih =>
+      intro hh
+      simp only [List.all_cons, Bool.and_eq_true] at hh
+      have := ih hh.2
+      simp [hh.1, this]
+  obtain ⟨t1, t2⟩ := htw auth ha
+  have hsplit : ∀ via, splitURLv via e.uri = (auth, 47 :: path) := by
+    intro via
+    rw [hu]
+    cases https with
+    | false =>
+      have hp : stripPrefix? httpPfx (httpPfx ++ auth ++ 47 :: path) = some (auth ++ 47 :: path) := by
+        rw [List.append_assoc]; exact hs _ _
+      simp only [Bool.false_eq_true, if_false, splitURLv, hp, splitAuth, t1, t2]
+    | true =>
+      have hn : stripPrefix? httpPfx (httpsPfx ++ auth ++ 47 :: path) = none := by
+        simp [stripPrefix?, httpPfx, httpsPfx]
+      have hp : stripPrefix? httpsPfx (httpsPfx ++ auth ++ 47 :: path) = some (auth ++ 47 :: path) := by
+        rw [List.append_assoc]; exact hs _ _
+      simp only [if_true, splitURLv, hn, hp, splitAuth, t1, t2]
+  rcases hf with rfl | rfl | rfl <;> simp [wireURI, urlHost, urlOf, viaOf, hsplit]
+
 /-! ### raw entries: the version in the request line does not decide about connections -/
 
 /-- **raw, HTTP/1.0 or 1.1 alike** (repaired, fixes/C09-raw-http10-keepalive.diff): the request a raw entry becomes is
@@ -463,7 +620,9 @@ check (translator `/verif/gen -area httpwire`); the functions the theorems above
 * `hostWithoutPort`, `preResolve` are the regenerated getHostWithoutPort / PreResolveTargetAddr;
 * `mergeUri` / `mergeJson` fold the regenerated merge-loop bodies of uri.go, uripost.go / jsonline.go (Scan and readArray);
 * `decodeClose` is the regenerated rule of raw.DecodeRequest over net/http's shouldClose;
-* the http2 constructor's ssl check is the one of `constructible`.
+* the http2 constructor's ssl check is the one of `constructible`;
+* `newTransport`, `defaultTransportCfg`, `transportTags` are the regenerated NewTransport literal, DefaultTransportConfig
+  and `config:` tags of TransportConfig (round 2).
 (The shape facts — where Setup / NewRequest arguments, the per-gun client, the keep-alive option and the factories'
 Target/TargetResolved come from — are pinned in `Pandora.Bridge.HttpWire` and compiled with this module.) -/
 theorem C09_regenerated_code_is_model :
@@ -484,11 +643,15 @@ theorem C09_regenerated_code_is_model :
     (∀ minor conn, Gen.HttpWire.decodeRequestClose 1 minor (goShouldClose minor conn) (hasTok conn closeTok) =
       decodeClose minor conn) ∧
     (∀ ssl, constructible .http2 ssl = (!Gen.HttpWire.http2NeedsSSL || ssl)) ∧
-    Gen.HttpWire.defaultDisableKeepAlives = false :=
+    Gen.HttpWire.defaultDisableKeepAlives = false ∧
+    (∀ c, Gen.HttpWire.newTransport c = newTransport c) ∧
+    Gen.HttpWire.defaultTransportCfg = defaultTransportCfg ∧
+    Gen.HttpWire.transportTags = transportTags :=
   ⟨Bridge.HttpWire.enrich_cons, Bridge.HttpWire.shootRewrite_eq, Bridge.HttpWire.getHostWithoutPort_eq,
    fun d i l t => by rw [Bridge.HttpWire.preResolve_eq], Bridge.HttpWire.mergeUri_eq,
    Bridge.HttpWire.uripostMergeStep_eq, Bridge.HttpWire.mergeJson_eq, fun _ _ _ => rfl,
-   Bridge.HttpWire.decodeRequestClose_eq, Bridge.HttpWire.http2NeedsSSL_eq, rfl⟩
+   Bridge.HttpWire.decodeRequestClose_eq, Bridge.HttpWire.http2NeedsSSL_eq, rfl,
+   Bridge.HttpWire.newTransport_eq, Bridge.HttpWire.defaultTransportCfg_eq, Bridge.HttpWire.transportTags_eq⟩
 
 /-! ### the unrepaired tree -/
 
@@ -584,5 +747,30 @@ example : expHeader .raw [(xa, vConf)] (seenLines .raw []) connKey = none := by 
 /-- `C09_preload_same_requests` / `C09_json_sequence` / `C09_raw_sequence`: a pass that decodes, with a well-formed option -/
 example : (scanPass .raw (confHdr [(xa, vConf)]) [Item.mk [(xa, vFile)] { slash with method := GET, minor := 0 }]).2 = .ok ∧
     validMethod GET = true := by decide
+
+/-- round 2, `C09_connections_timed_keepalive` / `C09_default_transport_reuses` / `C09_handshake_option_reuses`: one
+instance, two requests 1.2 s apart, `tls-handshake-timeout: 300ms`: one connection; with `idle-conn-timeout: 300ms`
+instead (`C09_idle_timeout_expires`, `C09_connections_timed_bound`): two; an answer 0.9 s late under
+`response-header-timeout: 300ms` is lost with its connection -/
+example :
+    tconnRun (transportOf [("tls-handshake-timeout", 300 * msec)]) 1
+      [⟨0, true, false, 0, 0⟩, ⟨0, true, false, 1200000000, 0⟩] = 1 ∧
+    tconnRun (transportOf [("idle-conn-timeout", 300 * msec)]) 1
+      [⟨0, true, false, 0, 0⟩, ⟨0, true, false, 1200000000, 0⟩] = 2 ∧
+    idleExpired (transportOf [("idle-conn-timeout", 300 * msec)]) 1200000000 = true ∧
+    keeps (transportOf [("idle-conn-timeout", 300 * msec)]) = true ∧
+    tconnRun (transportOf [("response-header-timeout", 300 * msec)]) 1
+      [⟨0, true, false, 0, 900000000⟩, ⟨0, true, false, 0, 900000000⟩] = 2 ∧
+    keeps (transportOf [("max-idle-conns-per-host", -1)]) = false ∧
+    ((1200000000 : Nat) : Int) < 90 * sec := by decide
+
+/-- `C09_reuse_options_only`: two configurations that differ in the handshake timeout only -/
+example : ({ defaultTransportCfg with tlsHandshakeTimeout := 5 } : TransportCfg).idleConnTimeout =
+    defaultTransportCfg.idleConnTimeout := rfl
+
+/-- `C09_absolute_form`: `https://h/p` -/
+example : (if true then httpsPfx else httpPfx) ++ [104] ++ 47 :: [112] =
+      [104, 116, 116, 112, 115, 58, 47, 47, 104, 47, 112] ∧
+    ([104] : Str).all (fun c => !isAuthEnd c) = true := by decide
 
 end Pandora.Props.C09
